@@ -984,6 +984,12 @@ int main(int argc, char **argv) {
     fprintf(real_out(), "RACECANARY not detected (counter=%d)\n", v);
     return 0;
   }
+  if (cmd == "pristine") {
+    // nothing of the library has run in this process yet, and nothing but the plan's calls will
+    Plan p;
+    if (a.pos.empty() || !load_plan(a.pos[0], p)) return 2;
+    return run_pristine(p, real_out());
+  }
   if (cmd == "run") return cmd_run(a);
   if (cmd == "gen") return cmd_gen(a);
   if (cmd == "replay") return cmd_replay(a);
